@@ -172,7 +172,7 @@ func variants(t *rapid.T, v reflect.Value) interface{} {
 var filterCols = map[string][]string{
 	"row_a": {"id", "shard", "i8", "i16", "i32", "i", "u8", "u16", "u32", "u64", "b", "s", "n", "ni", "by", "t"},
 	"row_b": {"id", "shard", "p_i", "p_i32", "p_u16", "p_b", "p_s", "p_n", "p_t", "by"},
-	"row_c": {"key", "shard", "tx", "p_tx", "bin", "i_n_s", "ini", "i_n_b"},
+	"row_c": {"key", "shard", "tx", "p_tx", "bin", "i_n_s", "ini", "i_n_b", "sc", "p_sc", "bin_o", "j_mar"},
 }
 
 type built struct {
